@@ -996,7 +996,7 @@ def gen_cases(tier, rng, info):
     n_memo = len(cases)
     quick = tier == 'quick'
     maxh = 5 if quick else 8
-    n_world = 1000 if quick else 12000
+    n_world = 1000 if quick else 9000
     world = []
     for i in range(n_world):
         hist = [_fix_plugin_text(gen_call(rng)) for _ in range(rng.randint(1, maxh))]
